@@ -168,6 +168,10 @@ def run(ctx):
     ctx.check(bool(pt) and norm(pt[0].value).replace(" ", "") == "P[...,1,1]+P[...,2,2]+P[...,3,3]", "R3", gx, pt[0] if pt else g, "G", "Pptot", "G: p-shell population", "G: Pptot changed")
     if n3 < 12:
         raise AnalysisError(f"only {n3} one-centre terms interpreted")
+    # first-principles oracle: brute-force F_mn = sum_ls P_ls [(mn|ls) - 1/2 (ml|ns)] over the sp shell with the six non-zero
+    # one-centre integral classes; every upper-triangle element of the code must agree (restricted and unrestricted)
+    from .. import nddo
+    one_center_first_principles(ctx, repo, "R3")
     # exchange prefactor of the two-centre part
     for m, q in ((fk, "_two_center"), (gx, "G")):
         f = m.func(q)
@@ -369,3 +373,46 @@ def _positional_sites(ctx, repo) -> int:
                               f"{m.rel}::{q}: call of {tq} passes `{bad[0][1]}` at position {bad[0][0]} where the parameter is `{bad[0][2]}` "
                               f"(swapped same-typed arguments run without error and silently change the model)" if bad else "")
     return n
+
+
+def one_center_first_principles(ctx, repo, rid):
+    import sympy as sp
+
+    from .. import nddo
+    fk, fu = repo.mod(FK), repo.mod(FU)
+    gss, gpp, gsp, gp2, hsp = nddo.symbols()
+    sc = {"gss": gss, "gpp": gpp, "gsp": gsp, "gp2": gp2, "hsp": hsp}
+    try:
+        vec = {k: fold(fk.globals[k].args[0]) for k in ("P_INDEX_3", "P_OFF_I", "P_OFF_J")}
+    except (KeyError, NotConst, AttributeError):
+        raise AnalysisError("fock.py: index constants P_INDEX_3 / P_OFF_I / P_OFF_J not literal")
+    oc = fk.func("_one_center")
+    # which local names are bound to which index constants
+    ivs = {}
+    for st in ast.walk(oc):
+        if isinstance(st, ast.Assign) and isinstance(st.targets[0], ast.Name) and isinstance(st.value, ast.Call) and callee_attr(st.value) == "_cached_index" \
+                and isinstance(st.value.args[0], ast.Name) and st.value.args[0].id in vec:
+            ivs[st.targets[0].id] = vec[st.value.args[0].id]
+    P = nddo.density("P")
+    F = nddo.fock_restricted(P)
+    code = nddo.interpret_one_center(fk, oc, {"Pdiag": lambda a, b: P[a][b]}, sc, ivs)
+    want = {(a, b) for a in range(4) for b in range(a, 4)}
+    ctx.check(set(code) == want, rid, fk, oc, "_one_center", "elements", "fock._one_center defines all 10 upper-triangle elements of the atom block",
+              f"fock._one_center defines elements {sorted(code)}; missing {sorted(want - set(code))}")
+    for (a, b), v in sorted(code.items()):
+        d = sp.expand(v - F[a][b])
+        ctx.check(d == 0, rid, fk, oc, "_one_center", f"F[{a}][{b}]",
+                  f"restricted one-centre F[{a}][{b}] equals the brute-force NDDO sum over the sp shell",
+                  f"fock._one_center: element ({a},{b}) = {sp.factor(v)} but sum_ls P_ls[(mn|ls) - (ml|ns)/2] = {sp.factor(F[a][b])}")
+    Pa, Pb = nddo.density("A"), nddo.density("B")
+    Fa = nddo.fock_unrestricted(Pa, Pb)
+    ou = fu.func("_one_center_u")
+    codeu = nddo.interpret_one_center(fu, ou, {"Ptot_d": lambda a, b: Pa[a][b] + Pb[a][b], "Pspin_d": lambda a, b: Pa[a][b], "P_opp_spin_d": lambda a, b: Pb[a][b]}, sc)
+    ctx.check(set(codeu) == want, rid, fu, ou, "_one_center_u", "elements", "_one_center_u defines all 10 upper-triangle elements",
+              f"_one_center_u defines elements {sorted(codeu)}")
+    for (a, b), v in sorted(codeu.items()):
+        d = sp.expand(v - Fa[a][b])
+        ctx.check(d == 0, rid, fu, ou, "_one_center_u", f"F^s[{a}][{b}]",
+                  f"unrestricted one-centre F^s[{a}][{b}] equals sum Ptot (mn|ls) - sum P^s (ml|ns) for arbitrary P_alpha != P_beta",
+                  f"_one_center_u: element ({a},{b}) = {sp.factor(v)} but the spin-s NDDO Fock element is {sp.factor(Fa[a][b])} "
+                  f"(wrong spin density in a Coulomb/exchange term only shows for spin-polarised densities)")
